@@ -357,6 +357,53 @@ class EqualPairs(SubCheck):
         return {'nontrivial': case['how'] != 'same' or type(k1) not in (str, bytes), 'classes': ['how=' + case['how']]}
 
 
+class JSONDiskRouting(SubCheck):
+    """With JSONDisk the serialization defines key equality: keys with identical JSON are one key and must live in one
+    shard, however their Python objects are built (shared versus distinct sub-objects, tuple versus list)."""
+
+    name = 'jsondisk_routing'
+
+    def examples(self, tier):
+        return 60 if tier == 'quick' else 2000
+
+    def strategy(self, tier):
+        atom = st.one_of(st.text(min_size=1, max_size=6), st.integers(-5, 5), st.none(), st.booleans())
+        return st.fixed_dictionaries({'items': st.lists(atom, min_size=1, max_size=4), 'dup': st.integers(0, 3), 'shards': st.sampled_from([2, 3, 8, 13]), 'variant': st.sampled_from(['distinct-objects', 'tuple', 'same'])})
+
+    def execute(self, case, env):
+        import diskcache
+
+        items = list(case['items'])
+        shared = items[case['dup'] % len(items)]
+        k1 = items + [shared]  # the same object twice
+        if case['variant'] == 'distinct-objects':
+            k2 = common.rebuild(k1)  # equal, but every sub-object is distinct
+        elif case['variant'] == 'tuple':
+            k2 = tuple(common.rebuild(k1))
+        else:
+            k2 = k1
+        if json.dumps(k1) != json.dumps(k2):
+            return {'nontrivial': False, 'classes': ['skipped']}
+        path = env.scratch.fresh('jr')
+        fc = diskcache.FanoutCache(path, shards=case['shards'], timeout=0, disk=diskcache.JSONDisk)
+        try:
+            fc[k1] = 'v1'
+            got = fc.get(k2, 'MISSING')
+            fc[k2] = 'v2'
+            n = len(fc)
+            back = fc.get(k1, 'MISSING')
+            if got != 'v1' or n != 1 or back != 'v2':
+                raise Violation(
+                    'C13/jsondisk-equal-keys-different-shard/%s' % case['variant'],
+                    'FanoutCache(JSONDisk, shards=%d): keys %r and %r have the same JSON; f[k1]=v1; f.get(k2) -> %r; f[k2]=v2; len -> %d; f.get(k1) -> %r'
+                    % (case['shards'], k1, k2, got, n, back),
+                )
+            return {'nontrivial': case['variant'] != 'same', 'classes': ['variant=' + case['variant']]}
+        finally:
+            fc.close()
+            env.scratch.drop(path)
+
+
 class AggregatesUnderContention(SubCheck):
     """clear/evict/expire/cull totals when shards time out repeatedly in the middle (another writer takes and gives back
     the lock): the total must equal that of an undisturbed twin and cover every shard exactly once."""
@@ -382,4 +429,4 @@ class AggregatesUnderContention(SubCheck):
             raise Violation('C13/aggregate-total/' + v.signature.split('/', 1)[1], v.detail)
 
 
-SUBCHECKS = [Histories(), Routing(), Golden(), EqualPairs(), AggregatesUnderContention()]
+SUBCHECKS = [Histories(), Routing(), Golden(), EqualPairs(), AggregatesUnderContention(), JSONDiskRouting()]
